@@ -327,7 +327,9 @@ fn eat_location_item(parser: &mut Parser, recovery: TokenSet) -> bool {
     }
 
     parser.in_node(AstKind::LocationSpecItemNode, |parser| {
-        parser.eat_tag();
+        // always advances (an invalid tag is reported and skipped), so that the
+        // loops over location items cannot spin on it.
+        parser.expect_tag(recovery.add(Kind::Eq));
         parser.expect_recover(Kind::Eq, recovery.add(Kind::Comma));
         if !expect_axis_location(parser) {
             parser.err_recover(
@@ -447,6 +449,16 @@ mod tests {
             "{}",
             errors[0].text()
         );
+    }
+
+    #[test]
+    fn variable_metric_bad_axis_tag_terminates() {
+        // used to loop forever in eat_metric
+        let fea = "(toolong=1:1) A;";
+        let (_out, errors, _errstr) = debug_parse_output(fea, |parser| {
+            eat_metric(parser, TokenSet::IDENT_LIKE);
+        });
+        assert!(!errors.is_empty());
     }
 
     #[test]
